@@ -167,6 +167,14 @@ def proof_obligations(pid, cone_targets=None):
     bad = scan_forbidden()
     if bad:
         problems.append("forbidden tokens: " + "; ".join(bad[:10]))
+    try:
+        from . import pv2sexp
+        defs, terrs = pv2sexp.translate_all()
+        pv2sexp.write_reldefs(defs, os.path.join(COQ, "Gen", "RelDefs.v"))
+        if terrs:
+            problems.append("translator errors: %s" % terrs)
+    except Exception as ex:                     # the translator itself is part of the obligations
+        problems.append("translator failed: %r" % ex)
     rc, out = build_coq(cone_targets)
     if rc != 0:
         problems.append("coq build failed: " + out[-1500:])
